@@ -175,6 +175,13 @@ func under(root, p string) bool { return p == root || strings.HasPrefix(p, root+
 // command started in (relative operands of the non-*at calls are resolved against it; chdir is
 // followed per process, children inherit at fork).
 func Parse(tracePath, root, cwd string) ([]Event, []string, error) {
+	return ParseAlias(tracePath, root, cwd, nil)
+}
+
+// ParseAlias is Parse for a tree in which directories are symbolic links to directories outside the root: alias
+// maps such an outside directory to the path under root it is reached by (strace -y annotates descriptors with the
+// resolved path; the program's own path operands stay as written).
+func ParseAlias(tracePath, root, cwd string, alias map[string]string) ([]Event, []string, error) {
 	root = path.Clean(root)
 	f, err := os.Open(tracePath)
 	if err != nil {
@@ -239,7 +246,7 @@ func Parse(tracePath, root, cwd string) ([]Event, []string, error) {
 			}
 			continue
 		}
-		ev, ok, err := decode(rc, root, cwds[pid])
+		ev, ok, err := decode(rc, root, cwds[pid], alias)
 		if err != nil {
 			return nil, notes, fmt.Errorf("trace line %d (%s): %v", ln, rc.name, err)
 		}
@@ -268,7 +275,15 @@ func resolve(dir, p string) string {
 	return path.Clean(dir + "/" + p)
 }
 
-func decode(rc rawCall, root, cwd string) (ev Event, keep bool, err error) {
+func decode(rc rawCall, root, cwd string, alias map[string]string) (ev Event, keep bool, err error) {
+	canon := func(p string) string {
+		for out, in := range alias {
+			if under(out, p) {
+				return in + p[len(out):]
+			}
+		}
+		return p
+	}
 	ev = Event{Name: rc.name, Ret: retNum(rc.ret), Line: rc.line, Split: rc.split, FD: -1, FD2: -1}
 	a := rc.args
 	need := func(n int) error {
@@ -286,7 +301,7 @@ func decode(rc rawCall, root, cwd string) (ev Event, keep bool, err error) {
 		if err != nil {
 			return "", err
 		}
-		return resolve(dir, string(b)), nil
+		return resolve(canon(dir), string(b)), nil
 	}
 	plain := func(pArg string) (string, error) {
 		b, err := unhex(pArg)
@@ -304,7 +319,7 @@ func decode(rc rawCall, root, cwd string) (ev Event, keep bool, err error) {
 			return false, err
 		}
 		ev.FD, ev.Path = fd, ""
-		return under(root, p), nil
+		return under(root, canon(p)), nil
 	}
 	switch rc.name {
 	case "openat", "openat2":
@@ -590,6 +605,28 @@ func Load(root string) (*FS, error) {
 				return err
 			}
 			fs.Files[rel] = &Node{Data: b, Orig: rel}
+		case info.Mode()&os.ModeSymlink != 0:
+			// a folder that is a symbolic link to a directory elsewhere (another disk): its content is part of the tree
+			ti, err := os.Stat(p)
+			if err != nil || !ti.IsDir() {
+				return fmt.Errorf("%s: symbolic link that does not lead to a directory", p)
+			}
+			fs.Dirs[rel] = true
+			ents, err := os.ReadDir(p)
+			if err != nil {
+				return err
+			}
+			for _, e := range ents {
+				if !e.Type().IsRegular() {
+					return fmt.Errorf("%s/%s: unsupported entry behind a symbolic link", p, e.Name())
+				}
+				b, err := os.ReadFile(filepath.Join(p, e.Name()))
+				if err != nil {
+					return err
+				}
+				r := filepath.Join(rel, e.Name())
+				fs.Files[r] = &Node{Data: b, Orig: r}
+			}
 		default:
 			return fmt.Errorf("%s: unsupported file type %v", p, info.Mode())
 		}
